@@ -714,8 +714,8 @@ Definition run_cl (args : list bytes) : bytes :=
   | _ => bad end.
 
 (* ---- concrete ring (Model/Ring.v) ----
-   rg.ops <size> <backing array, hex> <r> <w> <empty 0|1> <op> ...   with op = l | p<n> | r<n>
-   output: one item per op ("L <len>", "P <first>|<end>", "R") joined by " ; ", then " ; S <r> <w> <empty> <content>" *)
+   rg.ops <size> <backing array, hex> <r> <w> <empty 0|1> <op> ...   with op = l | p<n> | r<n> | w<hex>
+   output: one item per op ("L <len>", "P <first>|<end>", "R", "W") joined by " ; ", then " ; S <size> <r> <w> <empty> <content>" *)
 Definition run_rg (op : bytes) (args : list bytes) : bytes :=
   match args with
   | size :: buf :: r :: w :: e :: ops =>
@@ -726,6 +726,8 @@ Definition run_rg (op : bytes) (args : list bytes) : bytes :=
             match acc, o with
             | Some (g, out), k :: n =>
                 if byte_eqb k "l"%byte then Some (g, out ++ [str "L " ++ decn (ring_length g)])
+                else if byte_eqb k "w"%byte then
+                  match unhexx n with Some d => Some (ring_write x00 g d, out ++ [str "W"]) | None => None end
                 else match undec n with
                      | Some n =>
                          if byte_eqb k "p"%byte then
@@ -738,7 +740,7 @@ Definition run_rg (op : bytes) (args : list bytes) : bytes :=
             end in
           match fold_left step ops (Some (g0, [])) with
           | Some (g, out) =>
-              join (str " ; ") (out ++ [str "S " ++ decn (rb_r g) ++ sp ++ decn (rb_w g) ++ sp ++
+              join (str " ; ") (out ++ [str "S " ++ decn (rb_size g) ++ sp ++ decn (rb_r g) ++ sp ++ decn (rb_w g) ++ sp ++
                                        (if rb_empty g then str "1" else str "0") ++ sp ++ hex (ring_content g)])
           | None => bad
           end
